@@ -9,7 +9,7 @@ from sa.engine import Engine
 from sa.report import VERIF
 from sa.terms import P, is_call, is_lit, C, show
 
-from . import VERIFIERS, fn_site, validators
+from . import payload_is_isolated, VERIFIERS, fn_site, validators
 
 EXPLANATION = (
     "Effect analysis over the walker's events. R1: the interprocedural write set on parameters (subscript/attribute "
@@ -138,7 +138,7 @@ def run(ctx, only=None):
             ok, why = False, "returns %s, not a fresh two-field dict" % show(v)[:80]
             break
         d = dict(v[2])
-        if not (is_call(d[C("signed")], "ext:copy.deepcopy") and d[C("signed")][2] == (obj,)):
+        if not payload_is_isolated(p, d[C("signed")], obj):
             ok, why = False, "payload is %s, not copy.deepcopy(argument): later changes to either side affect the other" % show(d[C("signed")])[:80]
             break
         if not (is_lit(d[C("signatures")], "dict") and len(d[C("signatures")][2]) == 0):
